@@ -85,10 +85,20 @@ class PickyTensor(ir.Tensor):
         self.__dict__["_picky_name"] = value
 
 
+LAZY_EVALUATIONS = [0]  # how often the loader of a lazily loaded constant of the alphabet has run (process-wide counter)
+
+
 def small_tensor(w: World, a: int, name=None):
     arr = np.arange((a % 3) + 1, dtype=np.float32) + (a % 5)
     kind = (a // 15) % 5
-    if (a // 7) % 23 == 11:
+    if (a // 7) % 23 == 12:
+        # an ordinary lazily loaded constant (small): nothing but an explicit read may run its loader
+        def _load(arr=arr, name=name):
+            LAZY_EVALUATIONS[0] += 1
+            return ir.Tensor(arr, name=name)
+
+        t = ir.LazyTensor(_load, dtype=ir.DataType.FLOAT, shape=ir.Shape([int(arr.shape[0])]), name=name, cache=bool((a // 161) % 2))
+    elif (a // 7) % 23 == 11:
         # a lazily loaded constant declared with a symbolic dimension (the declared shape is not checked against the
         # data): size / nbytes of such a tensor cannot be computed, and repr() of a value holding it raises
         t = ir.LazyTensor(lambda arr=arr, name=name: ir.Tensor(arr, name=name), dtype=ir.DataType.FLOAT, shape=ir.Shape(["N"]), name=name)
